@@ -161,19 +161,16 @@ theorem stepCtxTimer_chan {s t k d s'} (hs : stepCtxTimer s t k d = some s') : s
 theorem stepCtxWeak_chan {w s k h s'} (hs : stepCtxWeak w s k h = some s') : s'.chan = s.chan := by
   unfold stepCtxWeak at hs; frame_crush hs
 
-theorem stepTimerArm_chan {s t s'} (hs : stepTimerArm s t = some s') : s'.chan = s.chan := by
+theorem stepTimerArm_chan {w s t due s'} (hs : stepTimerArm w s t due = some s') :
+    SameOrEnq s.chan s'.chan := by
   unfold stepTimerArm at hs; frame_crush hs
 
-theorem stepTimerWake_chan {w s t s'} (hs : stepTimerWake w s t = some s') :
-    SameOrEnq s.chan s'.chan := by
-  unfold stepTimerWake at hs; frame_crush hs
+theorem stepTimerEnd_chan {w s t s'} (hs : stepTimerEnd w s t = some s') : s'.chan = s.chan := by
+  unfold stepTimerEnd at hs; frame_crush hs
 
 theorem stepFire_chan {w s t m s'} (hs : stepFire w s t m = some s') :
     SameOrEnq s.chan s'.chan := by
   unfold stepFire at hs; frame_crush hs
-
-theorem stepTimerSent_chan {s t s'} (hs : stepTimerSent s t = some s') : s'.chan = s.chan := by
-  unfold stepTimerSent at hs; frame_crush hs
 
 theorem stepTickBegin_chan {s t m s'} (hs : stepTickBegin s t m = some s') :
     ChanStep s.chan s'.chan := by
@@ -271,8 +268,7 @@ theorem step_chan {w s l s'} (hs : step w s l = some s') : ChanSteps s.chan s'.c
   case tDeq => exact .one (.deq (stepDeq_chan hs).1 (stepDeq_chan hs).2)
   case tChanEnd => exact .one (.same (stepChanEnd_chan hs))
   case tStreamEnd => exact .one (.same (stepStreamEndTau_chan hs))
-  case tTimerArm => exact .one (.same (stepTimerArm_chan hs))
-  case tTimerWake => exact .one (stepTimerWake_chan hs).toChanStep
-  case tTimerSent => exact .one (.same (stepTimerSent_chan hs))
+  case timerArm => exact .one (stepTimerArm_chan hs).toChanStep
+  case timerEnd => exact .one (.same (stepTimerEnd_chan hs))
 
 end Hannibal
